@@ -217,7 +217,9 @@ func (c *MapCodec) readMapEntry(mp, k unsafe.Pointer, data []byte) (int, error) 
 	// the value should be. We're going to unmarshal into this directly
 	val := mapassign(unpackEFace(c.rtype).data, mp, k)
 
-	if offset < len(data) {
+	if offset < len(data) || index == 2 {
+		// A value field is present (it may have an empty body, e.g. a pointer to
+		// a zero value when the key was omitted too)
 		if index == 1 {
 			offset, fieldEnd, _, wt, err = c.readTagAndLength(data, offset)
 			if err != nil {
